@@ -1,6 +1,10 @@
 //! Property monitors and their registry.
 
+pub mod c02;
+pub mod c03;
+pub mod c07;
 pub mod c12;
+pub mod common;
 pub mod c13;
 pub mod c14;
 pub mod c15;
@@ -101,6 +105,42 @@ fn build_registry() -> Vec<PropDef> {
         assumptions: &["coefficients are normal floats or (-)0.0; a normalised row may be scaled by 1/max|a|, 1/||a||_2 or 1/||a||_1 (any standard normalisation is accepted as faithful)", "DOT shape/style attributes are not part of the property and are not checked"],
         watchdog_quick: 300,
         watchdog_thorough: 1800,
+        exhaustive_note: None,
+    },
+    PropDef {
+        id: "C02",
+        level: "exploration",
+        cases_quick: 3_000,
+        cases_thorough: 400_000,
+        run_case: c02::run_case,
+        rule: "one case = a pair of random trees f: R^n->R^m, g: R^m->R^p (K=2 in 70%, K=4 in 30% with 1- or 2-row decisions; depth 0..3 incl. terminal-rooted operands; total or with 25% missing children; scrambled arenas; f optionally pre-pruned so that its nodes carry cached states; int/dyadic/short-float/full-float regimes), h = f.clone().compose::<false,false>(&g) and h2 = f.clone().apply_func(a). Checked: complete graft audit (|h| = |f|+|T_f|(|g|-1), every f index kept, decisions of f untouched, every grafted node holds exactly (A_g M_t, b_g - A_g c_t) resp. (M_g M_t, M_g c_t + c_g) recomputed in exact rationals, labels preserved, missing children stay missing), g bit-identical before/after, and on ~150 probe inputs (lattices, max-slack points of every cell of f and h, points exactly on hyperplanes, gaussian) the exact walk of h equals g(f(x)) with undefinedness, and the library's evaluate() equals the exact walk. Non-trivial = both operands have a decision or one of them is partial; distinct = structural hash of (f, g).",
+        assumptions: &["float regimes: inputs whose route passes within relative 1e-9 (1e-7 for g at f(x)) of a hyperplane are skipped, values compared at 1e-9; exact regimes (int, dyadic): everything bit-exact including boundary inputs"],
+        watchdog_quick: 300,
+        watchdog_thorough: 2400,
+        exhaustive_note: Some("the graft audit visits every node of every result tree (complete per tree)"),
+    },
+    PropDef {
+        id: "C03",
+        level: "exploration",
+        cases_quick: 2_000,
+        cases_thorough: 200_000,
+        run_case: c03::run_case,
+        rule: "one case = (50%) a binary tree with a history (random spec tree: depth <= 3, 0/30% missing children, planted contradicting predicates, zero predicates, scrambled arena; then up to 3 random steps of unpruned composition with schema or random (partial) trees, infeasible_elimination, apply_func, so that nodes carry cached Feasible/Witness/Infeasible states) pruned by infeasible_elimination; (30%) f.compose::<true>(g) against f.compose::<false>(g) for the same f (with history) and a random total/partial g or schema tree; (20%) an arithmetic operator on a pair with partial operands (C07 comparator). Oracle: every index removed in place is classified (subtree top must have exact uniform slack < 1e-4, forwarded decisions must have had both children and their other subtree must be such a region; a decision turning into a terminal is a violation; survivors keep index and function; after-paths are subsequences of before-paths), the max-slack interior point of every thick cell (terminal region or undefined region) of both trees and every probe input that ends in a thick cell of the reference tree must be treated identically (exact values, definedness). Non-trivial = pruning removed at least one node; distinct = structural hash of the inputs.",
+        assumptions: &["band |t*| < 1e-4 of the exact uniform slack is 'thin': either verdict of the LP is accepted and the case is counted as skipped", "histories that panic or yield a malformed tree before the monitored step are C04's subject and skipped here"],
+        watchdog_quick: 400,
+        watchdog_thorough: 3000,
+        exhaustive_note: Some("the removed-node audit and the thick-cell enumeration are complete for every tree at hand"),
+    },
+    PropDef {
+        id: "C07",
+        level: "exploration",
+        cases_quick: 2_500,
+        cases_thorough: 250_000,
+        run_case: c07::run_case,
+        rule: "one case = (65%) a pair of binary trees a, b over the same dimensions (depth <= 3, terminal-rooted allowed, 30% of operands partial, scrambled arena, divisor trees with non-zero power-of-two coefficients) and one operator of + - * / evaluated in the four ownership forms &a.&b, a.&b, a.b, &a.b; per probe input the terminals reached in a and b by the exact walk determine the expected terminal (same IEEE operator coefficient-wise, bit-equal) and definedness (S5: joint cell of the two end cells must be thick); (35%) tree-affine forms a.f, a.&f, f.a, &f.a for + - * / and -a: structure unchanged, decisions untouched, terminals bit-equal to the operator applied in the right operand order, point-wise meaning for + - neg. Non-trivial = both operands (resp. the tree) have a decision; distinct = hash of operator and operands.",
+        assumptions: &["divisors have non-zero coefficients (otherwise from_mats' debug assertion on non-normal floats fires, which is documented behaviour)"],
+        watchdog_quick: 400,
+        watchdog_thorough: 3000,
         exhaustive_note: None,
     },
     ]
